@@ -147,12 +147,29 @@ def clause_validate_before_mutate(R, F, CG):
                 if not body.is_cleanup(c.bb) and is_mutation_site(body, c):
                     out.append((body, c))
         return out
+    def callers_validated(name):
+        """a private engine method runs in its callers' context: if every call to it (from engine bodies) is itself
+        dominated by a validator, its mutation sites are validated"""
+        fn = em[name]
+        if (fn.j.get("vis") or "") == "Public":
+            return False
+        callers = []
+        for other in em.values():
+            for body in [other] + F.descendants(other.id):
+                for c in body.calls():
+                    if c.target_id == fn.id and not body.is_cleanup(c.bb):
+                        callers.append((body, c))
+        return bool(callers) and all(validated_at(F, em, validated, body, c.bb) for body, c in callers)
+
+    ctx_validated = set()
     for _ in range(4):
         for name in order:
             ss = sites_of(name)
             if not ss:
                 continue
             validated[name] = all(validated_at(F, em, validated, body, c.bb) for body, c in ss)
+            if not validated[name] and callers_validated(name):
+                ctx_validated.add(name)
     n = 0
     for name in order:
         ss = sites_of(name)
@@ -160,6 +177,10 @@ def clause_validate_before_mutate(R, F, CG):
             continue
         if name in ESCAPE_HATCH:
             R.ok(1, sample={"rule": "DOM-before", "entry": name, "exception": ESCAPE_HATCH[name]})
+            continue
+        if name in ctx_validated:
+            n += len(ss)
+            R.ok(len(ss), sample={"rule": "DOM-before", "entry": name, "validator": "every call site of this private helper is dominated by a validator"})
             continue
         for body, s in ss:
             n += 1
